@@ -144,6 +144,9 @@ enum Api {
     UniformI(Int, Int, bool),
     SingleU(Nat, Nat),
     SingleI(Int, Int),
+    /// UniformSampler::sample_single_inclusive (what `rng.gen_range(lo..=hi)` calls)
+    SingleInclU(Nat, Nat),
+    SingleInclI(Int, Int),
 }
 
 /// printable form of a word stream (long streams: head, length and a checksum)
@@ -175,6 +178,8 @@ fn run_node(ctx: &mut Ctx, api: &Api, words: &[u32]) -> usize {
             let w = if *incl { w.add(&Nat::one()) } else { w };
             l.add(&Int::from_nat(m.below(&w)))
         }
+        Api::SingleInclU(l, u) => Int::from_nat(l.add(&m.below(&u.sub(l).unwrap().add(&Nat::one())))),
+        Api::SingleInclI(l, u) => l.add(&Int::from_nat(m.below(&u.sub(l).mag.add(&Nat::one())))),
     };
     if m.pos >= 2 || m.retries > 0 {
         ctx.nontrivial(1);
@@ -207,6 +212,8 @@ fn run_node(ctx: &mut Ctx, api: &Api, words: &[u32]) -> usize {
         }
         Api::SingleU(l, u) => BigInt::from(UniformBigUint::sample_single(bu_nat(l), bu_nat(u), &mut rng)),
         Api::SingleI(l, u) => UniformBigInt::sample_single(bi_int(l), bi_int(u), &mut rng),
+        Api::SingleInclU(l, u) => BigInt::from(UniformBigUint::sample_single_inclusive(bu_nat(l), bu_nat(u), &mut rng)),
+        Api::SingleInclI(l, u) => UniformBigInt::sample_single_inclusive(bi_int(l), bi_int(u), &mut rng),
     });
     let consumed = rng.pos;
     let args = || vec![format!("{:?}", api), format!("stream={}", ws(words))];
@@ -244,6 +251,8 @@ fn run_node(ctx: &mut Ctx, api: &Api, words: &[u32]) -> usize {
                 Api::UniformU(l, u, incl) => !g.neg && l.le(&g.mag) && (g.mag.lt(u) || (*incl && g.mag == *u)),
                 Api::RangeI(l, u) | Api::SingleI(l, u) => l.cmp(&g) != std::cmp::Ordering::Greater && g.cmp(u) == std::cmp::Ordering::Less,
                 Api::UniformI(l, u, incl) => l.cmp(&g) != std::cmp::Ordering::Greater && (g.cmp(u) == std::cmp::Ordering::Less || (*incl && g == *u)),
+                Api::SingleInclU(l, u) => !g.neg && l.le(&g.mag) && g.mag.le(u),
+                Api::SingleInclI(l, u) => l.cmp(&g) != std::cmp::Ordering::Greater && g.cmp(u) != std::cmp::Ordering::Greater,
             };
             if !in_range {
                 ctx.viol(format!("out-of-range {:?} stream={}{}", api, ws(words), kind()), "result outside the requested bounds", args(), "in range".into(), g.to_hex());
@@ -339,6 +348,8 @@ fn body(ctx: &mut Ctx) {
                 apis.push(Api::UniformU(l.clone(), u.clone(), false));
                 apis.push(Api::SingleU(l.clone(), u.clone()));
                 apis.push(Api::UniformU(l.clone(), u.sub(&Nat::one()).unwrap(), true));
+                apis.push(Api::SingleInclU(l.clone(), u.sub(&Nat::one()).unwrap()));
+                apis.push(Api::SingleInclU(l.clone(), l.clone())); // one-point range
             }
         }
         // signed ranges: negative, zero-crossing, lbound = 0, ubound = 0, width 1
@@ -365,6 +376,9 @@ fn body(ctx: &mut Ctx) {
             apis.push(Api::UniformI(l.clone(), u.clone(), false));
             apis.push(Api::SingleI(l.clone(), u.clone()));
             apis.push(Api::UniformI(l.clone(), u.sub(&i(1)), true));
+            apis.push(Api::SingleInclI(l.clone(), u.sub(&i(1))));
+            apis.push(Api::SingleInclI(l.clone(), l.clone())); // one-point range
+            apis.push(Api::UniformI(u.clone(), u.clone(), true));
         }
         for (k, api) in apis.iter().enumerate() {
             if !ctx.mine(k as u64) {
@@ -456,6 +470,9 @@ fn body(ctx: &mut Ctx) {
         p!("UniformBigInt::new_inclusive(5,-5)", |_r: &mut StreamRng| UniformBigInt::new_inclusive(ifive.clone(), ineg.clone()));
         p!("UniformBigUint::sample_single(5,5)", |r: &mut StreamRng| UniformBigUint::sample_single(five.clone(), five.clone(), r));
         p!("UniformBigInt::sample_single(5,-5)", |r: &mut StreamRng| UniformBigInt::sample_single(ifive.clone(), ineg.clone(), r));
+        p!("UniformBigUint::sample_single_inclusive(big,5)", |r: &mut StreamRng| UniformBigUint::sample_single_inclusive(big.clone(), five.clone(), r));
+        p!("UniformBigInt::sample_single_inclusive(5,-5)", |r: &mut StreamRng| UniformBigInt::sample_single_inclusive(ifive.clone(), ineg.clone(), r));
+        p!("UniformBigInt::sample_single(-5,-5)", |r: &mut StreamRng| UniformBigInt::sample_single(ineg.clone(), ineg.clone(), r));
         // new_inclusive(low == high) is a valid one-point range
         ctx.case();
         let mut rng = StreamRng { words: &words, pos: 0 };
